@@ -70,6 +70,13 @@ def make_judges(ctx):
         if extra == {'n_word_max'} and isinstance(d['n_word_max'], int) and 8 <= d['n_word_max'] <= 64:
             MAXW = d['n_word_max']          # "the configured maximum": the same statement with another cap
             extra = set()
+        is_raw = False
+        if extra == {'raw'} and isinstance(d['raw'], bool):
+            # a raw value given with its fraction length: the value is code * 2^-n_frac (only the word is inferred)
+            is_raw = d['raw']
+            extra = set()
+            if is_raw and not isinstance(d.get('n_frac'), int):
+                return
         if extra:
             ctx.skip('infer:non-default configuration or raw/scaled construction')
             return
@@ -99,6 +106,10 @@ def make_judges(ctx):
         if is_c:
             ctx.skip('infer:complex input')
             return
+        if is_raw:
+            if any(v.denominator != 1 for v in vals):
+                return
+            vals = [v * R.lsb(d['n_frac']) for v in vals]
         if not signed and any(v < 0 for v in vals):
             ctx.skip('infer:negative value for an unsigned format')
             return
@@ -213,7 +224,7 @@ def make_judges(ctx):
 def floors(tier):
     gs = [(), ('n_word',), ('n_frac',), ('n_frac', 'n_int'), ('n_word', 'n_int')]
     return [('given', g, sa) for g in gs for sa in (None, True, False)] + [('capped', True), ('capped', False), ('capped_configured_maximum', True),
-                                                                         ('mixed_int_float_container', 'list'), ('mixed_int_float_container', 'tuple')]
+                                                                         ('mixed_int_float_container', 'list'), ('mixed_int_float_container', 'tuple'), ('object-array-numpy-scalars',), ('raw-with-fraction-length',)]
 
 
 # ------------------------------------------------------------------------------------------ workload
@@ -319,6 +330,27 @@ def run_case(case, ctx):
         _try(lambda: Fxp(tuple(mlist), **kw))
         _try(lambda: Fxp([list(mlist), list(reversed(mlist))], **kw))
         _try(lambda: Fxp(list(mlist), n_word=rng.randint(20, 60), **kw))
+        # object arrays holding narrow NumPy scalars next to python numbers (the size search must not multiply in the scalar's own type)
+        if (i // 12) % 3 == 0:
+            for first in (np.int8(100), np.uint8(200), np.int16(20000), np.float16(1000.0), np.float32(1.5), np.int8(-3)):
+                if nonneg and first < 0:
+                    continue
+                oa_ = np.empty(2, dtype=object)
+                oa_[:] = [first, float(F(rng.randint(1, 2 ** 9) * 2 + 1, 2 ** rng.randint(1, 10)))]
+                _try(lambda: Fxp(oa_, **kw))
+                _try(lambda: Fxp(oa_, n_frac=rng.randint(10, 14), **kw))
+            ctx.floor_hit(('object-array-numpy-scalars',))
+        # raw values given with their fraction length (only the word is inferred): also values whose word has to be limited to the maximum
+        if form == 0:
+            nfr = nfe + rng.randint(0, 6)
+            kraw = int(vals[0] * 2 ** nfr)
+            _try(lambda: Fxp(kraw, n_frac=nfr, raw=True, **kw))
+            _try(lambda: Fxp([kraw, 1], n_frac=nfr, raw=True, **kw))
+            big = rng.randint(2 ** 38, 2 ** 40 - 1) * (1 if nonneg or rng.random() < 0.5 else -1)
+            nfb = rng.randint(24, 30)
+            _try(lambda: Fxp(big * 2 ** nfb, n_frac=nfb, raw=True, **kw))
+            _try(lambda: Fxp([big * 2 ** nfb, 3 * 2 ** (nfb - 3)], n_frac=nfb, raw=True, **kw))
+            ctx.floor_hit(('raw-with-fraction-length',))
         # another configured maximum
         nwm = rng.choice([16, 24, 32, 48])
         _try(lambda: Fxp(val, n_word_max=nwm, **kw))
